@@ -4,6 +4,7 @@ C06 — dot-bracket, pair-table and strand-table conversions are exact and valid
 import DsdVerif.Model.Complex
 import DsdVerif.Lemmas.Matcher
 import DsdVerif.Lemmas.MatchingUnique
+import DsdVerif.Props.C06Loci
 
 namespace Dsd.C06
 open Dsd.Bracket
